@@ -506,7 +506,7 @@ fn main() {
     let args = Args::parse();
     let rep = Report::new("C18", &args);
     if is_miri() || args.get_u64("tiny", 0) == 1 {
-        rep.rule("owned guards of one stopwatch ended concurrently on separate threads, and short random op sequences, under the interpreter/sanitizer");
+        rep.rule("owned guards of one stopwatch ended concurrently on separate threads, closes by reference racing with guards being stopped on another thread, and short random op sequences, under the interpreter/sanitizer");
         let mut rng = Rng::derive(args.seed, args.get_u64("variant", 0));
         for i in 0..args.get_u64("rounds", 4) {
             rep.eval();
@@ -534,7 +534,7 @@ fn main() {
             }
             rep.distinct(Fnv::new().str(&format!("{ops:?}")).finish());
         }
-        println!("OUTCOME rounds={}", rep.counter("concurrent_guard_rounds"));
+        println!("OUTCOME variant={} rounds={} closes_seen_during_the_races={}", args.get_u64("variant", 0), rep.counter("concurrent_guard_rounds"), rep.counter("concurrent_closes_by_reference"));
         rep.finish_and_exit();
     }
     rep.rule(
